@@ -145,7 +145,7 @@ static void head_window_build(void) {
 }
 /* every shape of a well-formed list around a member IT: at the head or behind P (itself the head or deeper); with or without successor S */
 static void member_window_build(void) {
-  IT.timerNext_ = VF_nondet_bool() ? &S : NULL; S.timerPrev_ = &IT; S.timerNext_ = VF_nondet_bool() ? OPAQUE : NULL;
+  if (VF_nondet_bool()) { IT.timerNext_ = &S; S.timerPrev_ = &IT; S.timerNext_ = VF_nondet_bool() ? OPAQUE : NULL; } else { IT.timerNext_ = NULL; }
   if (VF_nondet_bool()) { H.head_ = &IT; IT.timerPrev_ = NULL; }
   else { P.timerNext_ = &IT; IT.timerPrev_ = &P; if (VF_nondet_bool()) { H.head_ = &P; P.timerPrev_ = NULL; } else { H.head_ = OPAQUE; P.timerPrev_ = OPAQUE; } }
   __CPROVER_assume(P.dueTime_ <= IT.dueTime_ && IT.dueTime_ <= S.dueTime_);
